@@ -9,6 +9,11 @@ import FlooVerif.Check3
 import FlooVerif.Gen.HwFacts
 import FlooVerif.Gen.PyFacts
 import FlooVerif.Model.Emit
+import FlooVerif.Jobs
+import FlooVerif.Check4
+import FlooVerif.Gen.ManifestFacts
+import FlooVerif.RouteMap
+import FlooVerif.AddrRange
 open Lean FlooVerif
 
 def jStrList (j : Json) : Except String (List String) := do
@@ -116,6 +121,110 @@ def handle (j : Json) : Except String Json := do
     let holds := props.filterMap fun pid =>
       if pid == "C01" then some (pid, Json.bool (C01.holds d n)) else none
     return Json.mkObj [("ok", true), ("findings", Json.mkObj res), ("model", model), ("holds", Json.mkObj holds)]
+  | "trim" =>
+    let rules ← (← (← j.getObjVal? "rules").getArr?).toList.mapM fun r => do
+      let a ← r.getArr?
+      match a.toList with
+      | [d, s, e] => pure ({ dest := ← d.getNat?, start := ← s.getInt?, stop := ← e.getInt?,
+                             size := (← e.getInt?) - (← s.getInt?) } : MapRule Nat)
+      | _ => throw "rule"
+    let t := trim rules
+    return Json.mkObj [("ok", true), ("noOverlap", checkNoOverlap rules),
+      ("trim", Json.arr (t.map fun r => Json.arr #[Json.num (r.dest : Nat), Json.num r.start, Json.num r.stop, Json.num r.size]).toArray)]
+  | "range" =>
+    let spec ← match decodeRange (← j.getObjVal? "spec") with
+      | .ok s => pure s
+      | .error e => throw s!"spec: {e.msg}"
+    let out (r : Except RangeErr AddrRange) : Json := match r with
+      | .ok a => Json.mkObj [("ok", Json.arr #[Json.num a.start, Json.num a.stop, Json.num a.size,
+          (match a.base with | some b => Json.num b | none => Json.null),
+          (match a.idx with | some b => Json.num b | none => Json.null)])]
+      | .error e => Json.mkObj [("err", toString (repr e))]
+    let r := mkRange spec
+    let re := match r, (j.getObjValD "setidx").getInt?.toOption with
+      | .ok a, some k => some (out (a.setIdx k))
+      | _, _ => none
+    return Json.mkObj [("ok", true), ("range", out r), ("setidx", re.getD Json.null)]
+  | "select" =>
+    let kind ← (← j.getObjVal? "kind").getStr?
+    let dims ← (← (← j.getObjVal? "dims").getArr?).toList.mapM (·.getNat?)
+    let g0 : Model.Graph := {}
+    let g ← match (if kind == "tree" then g0.addNodesAsTree "r" dims 0 true (dims.length + 1) 0
+                     else g0.addNodesAsArray "r" dims .router 0 false) with
+      | .ok g => pure g
+      | .error e => throw s!"build: {e.msg}"
+    let sel ← (← j.getObjVal? "sel").getStr?
+    let res ← match sel with
+      | "range" =>
+        let rng ← (← (← j.getObjVal? "range").getArr?).toList.mapM fun p => do
+          match (← p.getArr?).toList with
+          | [a, b] => pure ((← a.getInt?), (← b.getInt?))
+          | _ => throw "pair"
+        pure (g.nodesFromRange "r" rng)
+      | "idx" =>
+        let idx ← (← (← j.getObjVal? "idx").getArr?).toList.mapM (·.getInt?)
+        pure (g.nodesFromIdx "r" idx)
+      | "lvl" => pure (g.nodesFromLvl "r" (← (← j.getObjVal? "lvl").getInt?))
+      | _ => throw "sel"
+    return match res with
+      | .ok l => Json.mkObj [("ok", true), ("nodes", Json.arr (l.map Json.str).toArray)]
+      | .error e => Json.mkObj [("ok", true), ("err", e.cls)]
+  | "embodied" =>
+    -- the values a query can be compared with, read off the emitted package
+    let pkg ← jStrList (← j.getObjVal? "pkg")
+    let p ← Sv.parsePackageLossless pkg
+    let enumMember (en mem : String) : Json :=
+      match (findTypedefEnum p.items en).bind fun e => (e.members.find? (·.1 == mem)).map (·.2) with
+      | some v => Json.num (v : Nat) | none => Json.null
+    let bits (t : String) : Json := match typeBits? p.items t with | some v => Json.num (v : Nat) | none => Json.null
+    let samN : Json := match findParam p.items "SamNumRules" with
+      | some (_, .num v) => Json.num (v : Nat) | _ => Json.null
+    let routeBits : Json := match (findTypedef p.items "route_t").bind logicVecBits? with
+      | some v => Json.num (v : Nat) | none => Json.null
+    return Json.mkObj [("ok", true), ("num_endpoints", enumMember "ep_id_e" "NumEndpoints"), ("id_bits", bits "id_t"),
+      ("x_bits", bits "x_bits_t"), ("y_bits", bits "y_bits_t"), ("route_bits", routeBits), ("sam_rules", samN)]
+  | "manifest" =>
+    return Json.mkObj [("ok", true), ("holds", C20.holds Gen.manifestFacts Gen.hwFacts),
+      ("findings", Json.arr ((C20.check Gen.manifestFacts Gen.hwFacts).map findingJson).toArray),
+      ("closure", Json.arr ((C20.closure Gen.hwFacts (Gen.hwFacts.modules.length + 1) C20.roots).map Json.str).toArray),
+      ("entries", (Gen.manifestFacts.bender.length + Gen.manifestFacts.core.length : Nat))]
+  | "pkgdecls" =>
+    let pkg ← jStrList (← j.getObjVal? "pkg")
+    let top ← jStrList (← j.getObjVal? "top")
+    let p ← Sv.parsePackageLossless pkg
+    let m ← Sv.parseModuleLossless top
+    return Json.mkObj [("ok", true),
+      ("decls", Json.arr ((p.items.flatMap (C12.itemDecls Gen.hwFacts)).map Json.str).toArray),
+      ("ports", Json.arr (m.ports.map fun pt => Json.mkObj [("name", pt.name), ("dir", pt.dir)]).toArray),
+      ("flooPkg", Json.arr ((C12.flooPkgNames Gen.hwFacts).map Json.str).toArray)]
+  | "sam" =>
+    -- address-map rules of an emitted package: (lo, hi) with hi = 0 meaning the top of the space
+    let pkg ← jStrList (← j.getObjVal? "pkg")
+    let p ← Sv.parsePackageLossless pkg
+    match findParam p.items "Sam" with
+    | some (_, .pat fs) =>
+      let rules := fs.filterMap fun (_, e) => exprRule? e
+      return Json.mkObj [("ok", true), ("rules", Json.arr (rules.map fun r =>
+        Json.arr #[Json.num (r.start.val : Nat), Json.num (r.stop.val : Nat)]).toArray)]
+    | _ => throw "no Sam"
+  | "jobs" =>
+    let tr ← (← j.getObjVal? "traffic").getStr?
+    let wl ← (← j.getObjVal? "wl").getNat?
+    let bursts ← (← j.getObjVal? "bursts").getNat?
+    let rd ← (← j.getObjVal? "read").getBool?
+    let rx := (j.getObjValD "rx").getNat?.toOption.getD 0
+    let ry := (j.getObjValD "ry").getNat?.toOption.getD 0
+    let t ← match tr with
+      | "hbm" => pure Jobs.Traffic.hbm | "uniform" => pure (Jobs.Traffic.uniform rx ry) | "onehop" => pure .onehop
+      | "bit_complement" => pure .bitComplement | "bit_reverse" => pure .bitReverse
+      | "bit_rotation" => pure .bitRotation | "neighbor" => pure .neighbor | "shuffle" => pure .shuffle
+      | "transpose" => pure .transpose | "tornado" => pure .tornado | "hotspot_boundary" => pure .hotspotBoundary
+      | "hotspot" => pure .hotspot | "matmul" => pure .matmul
+      | _ => throw "unknown traffic type"
+    let tiles := (List.range Jobs.NX).flatMap fun x => (List.range Jobs.NY).map fun y => (x, y)
+    return Json.mkObj [("ok", true), ("tiles", Json.arr (tiles.map fun (x, y) =>
+      Json.arr ((Jobs.jobsOfTile t x y wl rd bursts).map fun jb =>
+        Json.arr #[Json.num (jb.len : Nat), Json.num (jb.src : Nat), Json.num (jb.dst : Nat)]).toArray).toArray)]
   | "model" =>
     -- accept/reject decision of the model alone (the implementation rejected, or CLI-level checks)
     match decodeDesc (← j.getObjVal? "desc") with
